@@ -13,7 +13,7 @@ sys.path.insert(0, os.path.join(os.path.dirname(os.path.abspath(__file__)), ".."
 import gen_session as G  # noqa: E402
 import impl_session as S  # noqa: E402
 
-LEAN_MODULES = ["KmipModel.Props.C12", "KmipModel.Props.Server", "KmipModel.Props.ServerBytes", "KmipModel.Props.ServerWF"]
+LEAN_MODULES = ["KmipModel.Props.C12", "KmipModel.Props.C12Decode", "KmipModel.Props.Server", "KmipModel.Props.ServerBytes", "KmipModel.Props.ServerWF"]
 RULE = ("byte streams = sequences of frames drawn from: valid requests for the 21 dispatched operations x KMIP "
         "1.0-2.0 (built with kmip.core.messages and encoded with .write, incl. frames larger than two receive "
         "buffers, and - implementation monitor only - valid requests of 1-2 MiB followed by an ordinary request), 13 grammar-aware mutation classes of them (truncate, inflate/deflate a length field, flip a type "
